@@ -11,6 +11,7 @@
        * `newConn`         flowsdecoder.go:106-153 (`New`: endpoint / port extraction)
        * `acceptReassembled` flowsdecoder.go:218-221 (`packet`: "newIPv4.Length != l" — how fq decides that
                             DefragIPv4 handed back a freshly reassembled datagram)
+       * `fsmCheck`        flowsdecoder.go:39-59 (`Accept` = gopacket TCPSimpleFSM.CheckState, options off)
        * `linkToDecodeFn`  shared.go:10-18 (link type dispatch table)
        * `fieldFlowsDir`   shared.go:37-56 (the metadata exposed per direction)
   (iii) gopacket's assembler is NOT modelled.  It appears as an INTERFACE ASSUMPTION on the sequence of
